@@ -531,6 +531,25 @@ func sortedValue(p *Prog, v ssa.Value, cfg *OrderCfg, depth int) string {
 	for _, r := range *v.Referrers() {
 		switch x := r.(type) {
 		case *ssa.DebugRef, *ssa.MakeClosure:
+		case *ssa.Store:
+			// a parameter/value spilled into a local because a closure (the
+			// comparator) captures it: judge the uses of that local
+			if al, ok := x.Addr.(*ssa.Alloc); ok && x.Val == v {
+				c, calls := allocSortedBeforeUse(p, al, func(in ssa.Instruction) bool { return in == ssa.Instruction(x) }, cfg)
+				if c.Kind != "" {
+					return c.Detail
+				}
+				if len(calls) == 0 {
+					return "stored to a local that is never sorted (" + p.Rel(x.Pos()) + ")"
+				}
+				for _, k := range calls {
+					if cv := CheckComparator(k, func(elem types.Type, path string) bool { return uniqueProjection(nil, cfg, elem, path) }); !cv.Total {
+						return "sorted at " + p.Rel(k.Pos()) + ", but " + cv.Why
+					}
+				}
+				continue
+			}
+			others = append(others, r)
 		case *ssa.Call:
 			if callee := x.Call.StaticCallee(); callee != nil {
 				if cfg.IsSorter(callee) && len(x.Call.Args) > 0 && x.Call.Args[0] == v {
@@ -544,6 +563,23 @@ func sortedValue(p *Prog, v ssa.Value, cfg *OrderCfg, depth int) string {
 			}
 			if bi, ok := x.Call.Value.(*ssa.Builtin); ok && (bi.Name() == "len" || bi.Name() == "cap") {
 				continue
+			}
+			// copied into a fresh slice (copy(dst, v) / append(empty, v...)):
+			// the copy carries the order; judge the copy instead
+			if bi, ok := x.Call.Value.(*ssa.Builtin); ok && depth < 3 {
+				var dst ssa.Value
+				switch {
+				case bi.Name() == "copy" && len(x.Call.Args) == 2 && x.Call.Args[1] == v:
+					dst = x.Call.Args[0]
+				case bi.Name() == "append" && len(x.Call.Args) == 2 && x.Call.Args[1] == v && isFreshOrEmpty(x.Call.Args[0]):
+					dst = x
+				}
+				if dst != nil {
+					if why := copiedSliceSorted(p, dst, x, cfg, depth+1); why != "" {
+						return why
+					}
+					continue
+				}
 			}
 			others = append(others, r)
 		case *ssa.MakeInterface:
@@ -618,4 +654,72 @@ func rootAlloc(a ssa.Value) *ssa.Alloc {
 		}
 	}
 	return nil
+}
+
+func isFreshOrEmpty(v ssa.Value) bool {
+	switch x := v.(type) {
+	case *ssa.Const:
+		return true
+	case *ssa.MakeSlice:
+		return true
+	case *ssa.Slice:
+		return isFreshOrEmpty(x.X)
+	case *ssa.Alloc:
+		return true
+	}
+	return false
+}
+
+// copiedSliceSorted: dst received a copy of a map-ordered slice at instruction
+// at; dst (a fresh slice value, possibly held in a local variable) must be
+// sorted before any other use.
+func copiedSliceSorted(p *Prog, dst ssa.Value, at ssa.Instruction, cfg *OrderCfg, depth int) string {
+	// dst is a load of a local variable: judge the variable
+	if u, ok := dst.(*ssa.UnOp); ok && u.Op == token.MUL {
+		if al, isA := u.X.(*ssa.Alloc); isA {
+			c, calls := allocSortedBeforeUse(p, al, func(in ssa.Instruction) bool {
+				// uses that come before the copy (creation of the slice) are not uses of the copied data
+				return in == at || !instrDominates(at, in)
+			}, cfg)
+			if c.Kind != "" {
+				return c.Detail
+			}
+			if len(calls) == 0 {
+				return "copied at " + p.Rel(at.Pos()) + " into a slice that is never sorted"
+			}
+			for _, k := range calls {
+				if cv := CheckComparator(k, func(elem types.Type, path string) bool { return uniqueProjection(nil, cfg, elem, path) }); !cv.Total {
+					return "sorted at " + p.Rel(k.Pos()) + ", but " + cv.Why
+				}
+			}
+			return ""
+		}
+	}
+	// dst is an SSA slice value (MakeSlice / append result)
+	root := dst
+	if sl, ok := root.(*ssa.Slice); ok {
+		root = sl.X
+	}
+	if why := sortedValueSkipping(p, root, at, cfg, depth); why != "" {
+		return why
+	}
+	return ""
+}
+
+// sortedValueSkipping is sortedValue ignoring the copy instruction itself.
+func sortedValueSkipping(p *Prog, v ssa.Value, skip ssa.Instruction, cfg *OrderCfg, depth int) string {
+	if v.Referrers() == nil {
+		return ""
+	}
+	// temporarily judge with the generic routine; the copy call is a len/cap-like neutral use
+	saved := *v.Referrers()
+	var kept []ssa.Instruction
+	for _, r := range saved {
+		if r != skip {
+			kept = append(kept, r)
+		}
+	}
+	*v.Referrers() = kept
+	defer func() { *v.Referrers() = saved }()
+	return sortedValue(p, v, cfg, depth)
 }
